@@ -29,7 +29,10 @@ pub enum COp { Poll { fresh: bool }, Set(u64), Get, Drop, Up,
                /// `n` rounds of `set(k)` followed by a poll of the thread's own subscriber
                SetPoll(u64),
                /// `n` rounds of `subscribe()` followed by the drop of the new subscriber
-               SubChurn(u64) }
+               SubChurn(u64),
+               /// free-running rounds only: several simple calls (set / set_if_not_eq / set_if_hash_not_eq / update / get) one
+               /// after the other on one thread — program order is real-time order for the linearizability oracle
+               Script(Vec<COp>) }
 impl COp {
     fn text(&self) -> String {
         match self { COp::Poll { fresh: false } => "poll".into(), COp::Poll { fresh: true } => "pollf".into(), COp::Set(v) => format!("set:{v}"),
@@ -37,7 +40,8 @@ impl COp {
             COp::Upd(k) => format!("upd:{k}"),
             COp::NextRefs { until } => format!("nextrefs:{until}"), COp::SetSeq(n) => format!("setseq:{n}"),
             COp::HoldWrite => "holdwrite".into(), COp::SubPoll => "subpoll".into(),
-            COp::UpdPoll(n) => format!("updpoll:{n}"), COp::SetPoll(n) => format!("setpoll:{n}"), COp::Churn(n) => format!("churn:{n}"), COp::SubChurn(n) => format!("subchurn:{n}") }
+            COp::UpdPoll(n) => format!("updpoll:{n}"), COp::SetPoll(n) => format!("setpoll:{n}"), COp::Churn(n) => format!("churn:{n}"), COp::SubChurn(n) => format!("subchurn:{n}"),
+            COp::Script(ops) => format!("script:{}", ops.iter().map(|o| o.text()).collect::<Vec<_>>().join("+")) }
     }
 }
 
@@ -117,6 +121,49 @@ enum Handle { Sub(Subscriber<u64>, Arc<Flag>, Waker), Clone(SharedObservable<u64
               /// an owner together with a subscriber of its own
               Both(SharedObservable<u64>, Subscriber<u64>, Waker) }
 
+fn simple_call(o: &SharedObservable<u64>, op: &COp) -> String {
+    match op {
+        COp::Set(v) => o.set(*v).to_string(),
+        COp::Get => o.get().to_string(),
+        COp::Sne(v) => fmt_opt(o.set_if_not_eq(*v)),
+        COp::Shne(v) => fmt_opt(o.set_if_hash_not_eq(*v)),
+        COp::Upd(k) => { let k = *k; o.update(|v| *v += k); "-".into() }
+        _ => unreachable!("not a simple call"),
+    }
+}
+
+/// the sequential specification of the simple calls on a `u64` cell (equal hashes = equal values)
+fn spec_call(cur: &mut u64, op: &COp) -> String {
+    match op {
+        COp::Set(v) => { let p = *cur; *cur = *v; p.to_string() }
+        COp::Get => cur.to_string(),
+        COp::Sne(v) | COp::Shne(v) => if *cur == *v { "none".into() } else { let p = *cur; *cur = *v; fmt_opt(Some(p)) },
+        COp::Upd(k) => { *cur += *k; "-".into() }
+        _ => unreachable!(),
+    }
+}
+
+/// C04, stated outright on the implementation side: is there ONE total order of all calls, respecting each thread's program
+/// order, in which the sequential specification returns exactly the observed results and ends on the observed value?
+/// `threads[t]` = (calls, results). Returns a linearization if there is one.
+fn linearization(init: u64, threads: &[(Vec<COp>, Vec<String>)], fin: u64) -> Option<Vec<(usize, usize)>> {
+    fn rec(cur: u64, pos: &mut Vec<usize>, threads: &[(Vec<COp>, Vec<String>)], fin: u64, acc: &mut Vec<(usize, usize)>) -> bool {
+        if pos.iter().zip(threads).all(|(p, t)| *p == t.0.len()) { return cur == fin; }
+        for t in 0..threads.len() {
+            let k = pos[t];
+            if k == threads[t].0.len() { continue; }
+            let mut c = cur;
+            if spec_call(&mut c, &threads[t].0[k]) != threads[t].1[k] { continue; }
+            pos[t] += 1; acc.push((t, k));
+            if rec(c, pos, threads, fin, acc) { return true; }
+            pos[t] -= 1; acc.pop();
+        }
+        false
+    }
+    let mut acc = vec![];
+    if rec(init, &mut vec![0; threads.len()], threads, fin, &mut acc) { Some(acc) } else { None }
+}
+
 fn poll_once(s: &mut Subscriber<u64>, w: &Waker) -> String {
     let mut cx = Context::from_waker(w);
     match Pin::new(s).poll_next(&mut cx) { Poll::Ready(Some(v)) => format!("Ready({v})"), Poll::Ready(None) => "End".into(), Poll::Pending => "Pending".into() }
@@ -141,6 +188,7 @@ fn worker(sh: Arc<Shared>, t: usize, op: COp, mut h: Handle, forced: bool, round
             (COp::Shne(v), Handle::Clone(o)) => fmt_opt(o.set_if_hash_not_eq(*v)),
             (COp::Upd(k), Handle::Clone(o)) => { let k = *k; o.update(|v| *v += k); "-".into() }
             (COp::SetSeq(n), Handle::Clone(o)) => { for i in 1..=*n { o.set(i); } "-".into() }
+            (COp::Script(ops), Handle::Clone(o)) => ops.iter().map(|op| simple_call(o, op)).collect::<Vec<_>>().join(";"),
             (COp::UpdPoll(n), Handle::Both(o, s, w)) => {
                 // every update of this thread is seen by this thread's subscriber on its next poll
                 let mut missed = 0u64;
@@ -227,7 +275,7 @@ fn setup(p: &Program) -> Setup {
             COp::Poll { fresh } => { let (f, w) = flag_waker(); n_subs += 1; Handle::Sub(if *fresh { root.subscribe_reset() } else { root.subscribe() }, f, w) }
             COp::NextNow | COp::NextRefs { .. } => { let (f, w) = flag_waker(); n_subs += 1; Handle::Sub(root.subscribe(), f, w) }
             COp::UpdPoll(_) | COp::SetPoll(_) => { let (_f, w) = flag_waker(); n_subs += 1; n_clones += 1; Handle::Both(root.clone(), root.subscribe(), w) }
-            COp::Set(_) | COp::Get | COp::Drop | COp::Sne(_) | COp::Shne(_) | COp::Upd(_) | COp::SetSeq(_) | COp::HoldWrite | COp::SubPoll | COp::Churn(_) | COp::SubChurn(_) => { n_clones += 1; Handle::Clone(root.clone()) }
+            COp::Set(_) | COp::Get | COp::Drop | COp::Sne(_) | COp::Shne(_) | COp::Upd(_) | COp::SetSeq(_) | COp::HoldWrite | COp::SubPoll | COp::Churn(_) | COp::SubChurn(_) | COp::Script(_) => { n_clones += 1; Handle::Clone(root.clone()) }
             COp::Up => Handle::Weak(root.downgrade()),
         });
     }
@@ -300,6 +348,19 @@ fn finish(sink: &mut Sink, p: &Program, joined: Vec<(Handle, Vec<String>, Option
     let mut written: Vec<u64> = vec![];
     let mut unwoken_pending: Vec<usize> = vec![];
     let value = st.monitor.get();
+    // C04: linearizability of the simple calls, checked outright (programs made of set / set_if_not_eq / set_if_hash_not_eq /
+    // update / get only, single calls or scripts; a thread's first result belongs to its call / script)
+    let simple = |o: &COp| matches!(o, COp::Set(_) | COp::Get | COp::Sne(_) | COp::Shne(_) | COp::Upd(_));
+    if p.ops.iter().all(|o| simple(o) || matches!(o, COp::Script(_))) && joined.iter().all(|j| !j.1.is_empty()) {
+        let threads: Vec<(Vec<COp>, Vec<String>)> = p.ops.iter().zip(joined.iter()).map(|(o, j)| match o {
+            COp::Script(ops) => (ops.clone(), j.1[0].split(';').map(|x| x.to_string()).collect()),
+            o => (vec![o.clone()], vec![j.1[0].clone()]),
+        }).collect();
+        if threads.iter().all(|(o, r)| o.len() == r.len()) && linearization(p.init, &threads, value).is_none() {
+            let shown: Vec<String> = threads.iter().enumerate().map(|(t, (o, r))| format!("thread {t}: {}", o.iter().zip(r).map(|(o, r)| format!("{} -> {r}", o.text())).collect::<Vec<_>>().join(", "))).collect();
+            sink.oracle_fail("C04,C01", &format!("not linearizable: from the initial value {} no total order of the calls (respecting each thread's program order) makes the sequential specification return these results and end on {value}: {}", p.init, shown.join(" | ")));
+        }
+    }
     for (t, (h, results, up)) in joined.into_iter().enumerate() {
         if up.is_some() { owners += 1; }
         match (&p.ops[t], h) {
@@ -361,6 +422,7 @@ fn finish(sink: &mut Sink, p: &Program, joined: Vec<(Handle, Vec<String>, Option
                 if seen.last() != Some(until) { sink.oracle_fail("C04,C01,C02", &format!("thread {t}: next_ref() never handed out the final value {until} (last seen {:?})", seen.last())); }
             }
             (COp::SetSeq(_), Handle::Clone(_)) => { owners += 1; }
+            (COp::Script(_), Handle::Clone(_)) => { owners += 1; }
             (COp::HoldWrite, Handle::Clone(_)) => { owners += 1; }
             (COp::Churn(_), Handle::Clone(_)) => { owners += 1; }
             (COp::SubChurn(_), Handle::Clone(_)) => { owners += 1; }
@@ -569,6 +631,11 @@ pub fn free_programs() -> Vec<(&'static str, Program)> {
         ("shne|shne", Program { init: 1, ops: vec![COp::Shne(7), COp::Shne(7)], extra_clones: 0 }),
         ("shne|shne|sne", Program { init: 1, ops: vec![COp::Shne(7), COp::Shne(7), COp::Sne(7)], extra_clones: 0 }),
         ("nextrefs|setseq", Program { init: 0, ops: vec![COp::NextRefs { until: 300 }, COp::SetSeq(300)], extra_clones: 0 }),
+        // scripts: several calls per thread, judged by the linearizability oracle alone
+        ("script.shne-upd-shne|script.get", Program { init: 1, ops: vec![COp::Script(vec![COp::Shne(5), COp::Upd(2), COp::Shne(5), COp::Get]), COp::Script(vec![COp::Get, COp::Get, COp::Get])], extra_clones: 0 }),
+        ("script.set-shne-upd-shne|script.upd-get", Program { init: 1, ops: vec![COp::Script(vec![COp::Set(3), COp::Shne(3), COp::Upd(1), COp::Shne(3), COp::Shne(4)]), COp::Script(vec![COp::Upd(10), COp::Get])], extra_clones: 0 }),
+        ("script.sne-upd-sne|script.shne-get|get", Program { init: 1, ops: vec![COp::Script(vec![COp::Sne(4), COp::Upd(1), COp::Sne(4), COp::Get]), COp::Script(vec![COp::Shne(9), COp::Get]), COp::Get], extra_clones: 0 }),
+        ("script.set-get|script.set-get|script.upd-sne", Program { init: 0, ops: vec![COp::Script(vec![COp::Set(1), COp::Get, COp::Set(2), COp::Get]), COp::Script(vec![COp::Set(3), COp::Get]), COp::Script(vec![COp::Upd(100), COp::Sne(2), COp::Get])], extra_clones: 0 }),
     ]
 }
 
